@@ -23,6 +23,7 @@ func init() {
 		Strata: []fw.Stratum{
 			{Name: "grid-len0-320-x-mtu1-320", N: fw.Const(320, 320), Run: c16Grid, Exhaustive: true},
 			{Name: "mtu-multiples", N: fw.Const(9*34, 9*34), Run: c16Multiples},
+			{Name: "more-than-65535-fragments", N: fw.Const(12, 60), Run: c16Many},
 			{Name: "random-pairs", N: fw.Const(200000, 4000000), Run: c16Random},
 			{Name: "opus", N: fw.Const(400, 40000), Run: c16Opus},
 		},
@@ -272,4 +273,15 @@ func c16Opus(c *fw.Ctx, i int) {
 	if c.WantSample() {
 		c.Sample(map[string]any{"opus_input_len": len(in), "nil": in == nil, "mtu": mtu})
 	}
+}
+
+// c16Many: inputs that need more than 65535 fragments (16-bit fragment counters must not be involved).
+func c16Many(c *fw.Ctx, i int) {
+	mtu := []int{1, 1, 2, 3}[i%4]
+	l := 65536*mtu + []int{-1, 0, 1, 2, mtu, 4097}[i%6]
+	if i >= 12 {
+		l = 65535*mtu + c.R.Range(0, 3*mtu+5)
+	}
+	c16Both(c, mtu, c.R.Bytes(l))
+	c.Sample(map[string]any{"mtu": mtu, "length": l, "fragments_needed": (l + mtu - 1) / mtu})
 }
